@@ -75,11 +75,12 @@ class ShapelyPolygon(Domain):
             new_points = self._sample_in_triangulation(t, scaled_n, device)
             if new_points is not None:
                 points = torch.cat((points, new_points), dim=0)
-                # remember the biggest triangle that was inside, if later
-                # some additional points need to be added
-                if t.within(self.polygon) and t.area > biggest_area:
-                    big_t = [t][0]
-                    biggest_area = t.area
+            # remember the biggest triangle that was inside, if later
+            # some additional points need to be added (also if the share
+            # of this triangle was rounded down to zero points)
+            if t.within(self.polygon) and t.area > biggest_area:
+                big_t = [t][0]
+                biggest_area = t.area
             if len(points) == n:
                 break
         points = self._check_enough_points_sampled(n, points, big_t, device)
